@@ -247,7 +247,7 @@ class Controller:
         for t in self._sched:
             if self._stop():
                 return None
-            if self.at.get(t) == "finished":
+            if self.at.get(t, "finished") == "finished":      # ended, or (W) never started by the code under test
                 continue
             self._trace.append(f"{t}:{self.label(t)}")
             self.progress += 1
@@ -368,9 +368,11 @@ class ShimThreading:
                 self._t.start()
 
             def is_alive(self):
-                return ctl_.at.get("W") != "finished"
+                return self._t.ident is not None and ctl_.at.get("W") != "finished"
 
             def join(self, timeout=None):
+                if self._t.ident is None:
+                    raise RuntimeError("cannot join thread before it is started")
                 self._t.join(timeout)
 
         self.Event = Event
@@ -406,15 +408,28 @@ class WarnCounter(logging.Handler):
 # ------------------------------------------------------------------------------------------------
 
 def ql_read(path: str) -> List[Tuple[Optional[bytes], Optional[bytes]]]:
+    """`QLReader.load` as a user calls it (default arguments; one reader object per process, used for file after file).
+    Every message type the harness records is defined in the definitions module, so a message the reader *skips* as
+    unknown is a message it failed to give back: it counts as undecodable, as does a disagreement between the three
+    views the reader offers (`headers` / `data` / `messages`)."""
     E = env()
-    rd = E["QLReader"]()
+    rd = E.get("ql_reader")
+    if rd is None:
+        rd = E["ql_reader"] = E["QLReader"]()
     n0 = len(sys.path)
     try:
-        rd.load(path, E["defs"], skip_unknown=False)
+        rd.load(path, E["defs"])
+    except BaseException:
+        E.pop("ql_reader", None)        # a load that raised may leave the object half filled: start afresh
+        raise
     finally:
         while len(sys.path) > n0:   # QLReader.load prepends the definitions' directory on every call
             sys.path.pop(0)
-    return [(bytes(h), bytes(d)) for h, d in zip(rd.headers, rd.data)]
+    out: List[Tuple[Optional[bytes], Optional[bytes]]] = [(bytes(h), bytes(d)) for h, d in zip(rd.headers, rd.data)]
+    if [(bytes(m.header), bytes(m.data)) for m in rd.messages] != out or len(rd.headers) != len(rd.data):
+        out.append((None, b"headers/data/messages disagree"))
+    out += [(None, b"skipped as unknown")] * int(rd.skipped or 0)
+    return out
 
 
 def raw_read(blob: bytes) -> List[Tuple[Optional[bytes], Optional[bytes]]]:
@@ -499,6 +514,37 @@ def tail_len(case: Dict[str, Any]) -> int:
     return 2 * (len(case["ops"]) + 2) * (len(case["ds"]) + 6) + 40
 
 
+def pre_ops(case: Dict[str, Any], dc, shim_time) -> None:
+    """case["pre"]: operations handed to the collection *before* `start()` (the data logger passes every message it
+    reads to `collection.update`, whether a recording is running or not): same shapes as the operations of the
+    session.  None of them may leave a trace in the files of the session that follows."""
+    for op in case.get("pre") or []:
+        shim_time.now += float(op[1])
+        k = op[0]
+        if k == "u":
+            dc.update(mk_msg(op[2], op[3]))
+        elif k == "t":
+            dc.update(None)
+        elif k == "p":
+            dc.pause()
+        elif k == "r":
+            dc.resume()
+
+
+def all_updates(case: Dict[str, Any]):
+    return [op for op in (case.get("pre") or []) + case["ops"] if op[0] == "u"]
+
+
+def ops_toks(ops) -> str:
+    return " ".join(f"u:{op[1]}:{op[2]}:{op[3]}" if op[0] == "u" else f"{op[0]}:{op[1]}" for op in ops)
+
+
+def pre_lines(case: Dict[str, Any]) -> List[str]:
+    """the driver does not read this line: what happens before start() is not part of the session the model runs, and
+    the Spec's `accepted` is a function of the session's operations alone"""
+    return ["PRE " + ops_toks(case["pre"])] if case.get("pre") else []
+
+
 def run_sched_case(case: Dict[str, Any]) -> Dict[str, Any]:
     """case = {"ds": [{"fmt","types": "A"|[tidx..],"interval": int}], "ops": [[k, dt, (tidx)]...], "sched": "RW.."}
     ops kinds: u (update with a message), t (update(None)), p (pause), r (resume), s (stop; last)."""
@@ -531,6 +577,7 @@ def run_sched_case(case: Dict[str, Any]) -> Dict[str, Any]:
                 _wrap(ctl, ds, i)
                 dc.add_data_set(ds)
                 dsets.append(ds)
+            pre_ops(case, dc, shim_time)
             dc.start()
         except C.MachineryError:
             raise
@@ -543,12 +590,11 @@ def run_sched_case(case: Dict[str, Any]) -> Dict[str, Any]:
         msgs: Dict[int, Any] = {}
         keys: Dict[Tuple[bytes, bytes], int] = {}
         hkeys: Dict[bytes, int] = {}
-        for op in case["ops"]:
-            if op[0] == "u":
-                m = mk_msg(op[2], op[3])
-                msgs[op[3]] = m
-                keys[key_of(m)] = op[3]
-                hkeys[bytes(m.header)] = op[3]
+        for op in all_updates(case):
+            m = mk_msg(op[2], op[3])
+            msgs[op[3]] = m
+            keys[key_of(m)] = op[3]
+            hkeys[bytes(m.header)] = op[3]
 
         def r_main():
             ctl.tid_of[_real_threading.get_ident()] = "R"
@@ -623,7 +669,7 @@ def run_sched_case(case: Dict[str, Any]) -> Dict[str, Any]:
             if ctl.started and ctl.at.get("W") != "finished":
                 ctl.go["W"].release()
             try:
-                if getattr(dc, "write_thread", None) is not None:
+                if getattr(dc, "write_thread", None) is not None and ctl.started:
                     dc.write_thread.join(10)
                 for ds in dc.datasets:
                     try:
@@ -698,10 +744,8 @@ def sched_block(cid: str, case: Dict[str, Any], obs: Dict[str, Any]) -> List[str
     lines = [f"CASE {cid} S {int(wp) if float(wp).is_integer() else wp} {tail_len(case)}"]
     for d in case["ds"]:
         lines.append(f"DS {sel_tok(d['types'])} {eff_interval(d['interval'])} {FMT_TOK[d['fmt']]}")
-    toks = []
-    for op in case["ops"]:
-        toks.append(f"u:{op[1]}:{op[2]}:{op[3]}" if op[0] == "u" else f"{op[0]}:{op[1]}")
-    lines.append("OPS " + " ".join(toks))
+    lines.append("OPS " + ops_toks(case["ops"]))
+    lines += pre_lines(case)
     lines.append("SCHED " + (case["sched"] or "-"))
     lines.append(f"OBS {obs['status']} warn={obs['warn']} wdead={obs['wdead']}")
     lines.append("TR " + " ".join(obs["trace"]))
@@ -811,8 +855,11 @@ MULTI_SESSION_LIMIT_S = 60.0
 
 def multi_session_check(fmt: str = "raw", flush_every_update: bool = False, sessions=(5, 6, 4)) -> Dict[str, Any]:
     """Real DataCollection, real writer thread, real clock; one data set selecting every type; three recordings in a row
-    with the same objects (only the file name changes, as the metadata would).  Returns the per-session sequences of
-    message serials that were sent and that the files contain.  The run is given MULTI_SESSION_LIMIT_S seconds (it
+    with the same objects (only the file name changes, as the metadata would).  Between the recordings (before the
+    first, after each stop) the collection is handed messages, time-outs and pause / resume as the data logger does
+    with everything it reads; the first recording is stopped while paused; in the second one message arrives while
+    paused.  Returns the per-session sequences of message serials that had to be recorded ("sent") and that the
+    files contain.  The run is given MULTI_SESSION_LIMIT_S seconds (it
     needs about one): a `stop()` that waits for ever is an observation ("exc"), not a hanging check."""
     E = env()
     dcm = E["dcm"]
@@ -829,6 +876,17 @@ def multi_session_check(fmt: str = "raw", flush_every_update: bool = False, sess
             ds = E["DataSet"]("c", "ds0", "ds0", "f0", E["get_formatter"](fmt), 0, [2147483647], md)
             dc.add_data_set(ds)
             serial = 0
+            outside = 9000
+
+            def not_recording():
+                """what the data logger hands over between two recordings: every message it reads, and time-outs"""
+                nonlocal outside
+                for t in (0, 1):
+                    outside += 1
+                    dc.update(mk_msg(t, outside))
+                dc.update(None)
+
+            not_recording()                      # before the first start()
             for si, n in enumerate(sessions):
                 ds.file_name_fmt = f"rec{si}"
                 dc.start()
@@ -837,10 +895,17 @@ def multi_session_check(fmt: str = "raw", flush_every_update: bool = False, sess
                     serial += 1
                     m = mk_msg(k % 3, serial)
                     keys[key_of(m)] = serial
-                    sent.append(serial)
-                    dc.update(m)
+                    if si == 1 and k == 2:       # second recording: one message arrives while paused
+                        dc.pause()
+                        dc.update(m)
+                        dc.resume()
+                    else:
+                        sent.append(serial)
+                        dc.update(m)
                     if flush_every_update:
                         _real_time.sleep(0.02)
+                if si == 0:                      # first recording: stopped while paused; the next one is not paused
+                    dc.pause()
                 dc.stop()
                 got: List[Any] = []
                 # the data set's file(s) of this recording
@@ -849,6 +914,11 @@ def multi_session_check(fmt: str = "raw", flush_every_update: bool = False, sess
                     for kk in decode_file(fmt, pth):
                         got.append(keys.get(kk, ("foreign", kk[0][:8].hex() if kk[0] else None)))
                 out["sessions"].append({"sent": sent, "read": got, "files": [os.path.basename(p) for p in paths]})
+                not_recording()                  # after stop(): dropped, and harmless for the next recording
+                if si == 1:
+                    dc.pause()                   # pause / resume of a stopped collection
+                    not_recording()
+                    dc.resume()
         except Exception as e:  # noqa: BLE001
             out["exc"] = f"{type(e).__name__}: {e}"[:300]
 
